@@ -253,6 +253,14 @@ def joint(cx):
     cx.check(not bad, "vote-table", "joint vote result: Won iff both Won, Lost iff either Lost, else Pending (3x3 table; mismatches: %s)" % bad[:3], shape=len(rets))
     f, rets = _rets(cx, "joint::Configuration::committed_index")
     ok = bool(rets)
+    def no_outgoing(lits):
+        # the outgoing half is known to be empty on this path: it reports (u64::MAX, true) and cannot constrain the result
+        return any(l[0] == "is" and l[2] is True and l[1][0] == "call" and l[1][1].endswith("is_empty") and contains(fld("Configuration.outgoing"), l[1]) for l in lits)
+    def incoming_part(x, i):
+        return x[0] == "tfield" and x[2] == i and x[1][0] == "call" and x[1][1].endswith("majority::Configuration::committed_index") and contains(fld("Configuration.incoming"), x)
+    shortcut = [(lits, v) for lits, v, _ in rets if v[0] == "tuple" and len(v[1]) == 2 and no_outgoing(lits) and incoming_part(v[1][0], 0) and incoming_part(v[1][1], 1)]
+    rets = [r for r in rets if not any(r[0] == s_[0] and r[1] == s_[1] for s_ in shortcut)]
+    ok = bool(rets)
     for lits, v, _ in rets:
         if v[0] != "tuple" or len(v[1]) != 2:
             ok = False
